@@ -209,9 +209,13 @@ impl ArrayImpl {
             ));
         };
         let mut c: BoolArray = binary_op(a.as_ref(), b.as_ref(), |a, b| *a || *b);
-        let bitmap = c.to_raw_bitvec();
-        c.get_valid_bitmap_mut().or(&bitmap);
-        Ok(A::new_bool(c))
+        // the result is valid (true) where either side is a valid true; raw bits under NULL
+        // slots do not count
+        let a_true = a.to_raw_bitvec().and(a.get_valid_bitmap());
+        let b_true = b.to_raw_bitvec().and(b.get_valid_bitmap());
+        c.get_valid_bitmap_mut().or(&a_true);
+        c.get_valid_bitmap_mut().or(&b_true);
+        Ok(A::new_bool(clear_null(c)))
     }
 
     pub fn not(&self) -> Result {
